@@ -652,7 +652,7 @@ impl Monitor for C19 {
     }
     fn streams(&self, tier: Tier, budget: f64) -> Vec<Stream> {
         let n = match tier {
-            Tier::Quick => 50_000,
+            Tier::Quick => 400_000,
             Tier::Thorough => 2_500_000,
         };
         vec![Stream::new("forced", forced().len() as u64 * 3), Stream::new("single-nodes", 600), Stream::new("html-trees", scaled(n, budget))]
